@@ -4,8 +4,8 @@
    [covered_parse_roundtrip] is LSP.HookFrag.covered_roundtrip instantiated with it.  [cover_not_shrunk] pins the
    coverage: a class or union of the base package that is not covered must be listed in /verif/cover_expected.json
    (classes that reach a union whose hook is outside the proved fragment, or genuinely defective: see DESIGN.md). *)
-From LSP Require Import Base Sem SemThy Denote PtyEq RoundTrip HookFrag.
-From Gen Require Import PkgData Known.
+From LSP Require Import Base MM Sem SemThy Denote PtyEq RoundTrip HookFrag Image ImageThy Link MMRound Catalog.
+From Gen Require Import MMData PkgData Known.
 
 Definition cov : list string * list pty := Eval vm_compute in iter_shrink Sg 16 (cover0 Sg).
 Definition uncovered_classes : list string := Eval vm_compute in filter (fun c => negb (mem c (fst cov))) (map fst (classes Sg)).
@@ -28,6 +28,42 @@ Theorem cover_not_shrunk :
   && forallb (fun u => existsb (pty_eqb u) expected_uncovered_unions || negb (existsb (pty_eqb u) cover_base_unions)) uncovered_unions = true.
 Proof. vm_compute. reflexivity. Qed.
 
+(* ---------------------------------------------------------------- the same for METAMODEL-valid values (LSP.Link, LSP.MMRound) *)
+Theorem cover_image : W_img mm Sg alias_objects plain_classes = true.
+Proof. vm_compute. reflexivity. Qed.
+Theorem cover_names_ok : names_ok mm = true.
+Proof. vm_compute. reflexivity. Qed.
+Theorem cover_fields_ok2 : fields_ok2 Sg = true.
+Proof. vm_compute. reflexivity. Qed.
+
+(* every closed-valid value (MM.valid without members at property-less structures; string-literal properties present) of every
+   metamodel type T parses at every covered annotation that is the image of T, well-typed, and serialises back up to nulls *)
+Theorem mm_covered_roundtrip (pystr : json -> string) : forall T j p k n,
+  cvalid mm T j -> wfp p = true -> smatch mm Sg alias_objects k (py_of mm n T) p = true -> okty Sg (fst cov) (snd cov) p = true ->
+  exists n' o j', structure Sg pystr n' p j = Ok o /\ has_type Sg p o /\ unstr Sg n' (Some p) o = Ok j' /\ RoundTrip.NEq j j'.
+Proof. exact (mm_roundtrip mm Sg alias_objects plain_classes pystr (fst cov) (snd cov) cover_image cover_names_ok cover_fields_ok2 cover_table_ok cover_hooks_ok). Qed.
+
+(* structures of the metamodel at the class of the same name *)
+Theorem mm_covered_roundtrip_structures (pystr : json -> string) : forall s st j,
+  find_struct mm s = Some st -> String.eqb s "LSPObject" = false -> mem s (fst cov) = true -> cvalid mm (TRef s) j ->
+  exists n' o j', structure Sg pystr n' (PyCls s) j = Ok o /\ has_type Sg (PyCls s) o /\ unstr Sg n' (Some (PyCls s)) o = Ok j' /\ RoundTrip.NEq j j'.
+Proof. exact (mm_roundtrip_structure mm Sg alias_objects plain_classes pystr (fst cov) (snd cov) cover_image cover_names_ok cover_fields_ok2 cover_table_ok cover_hooks_ok). Qed.
+
+(* (message envelopes are not images in the sense of smatch — their classes carry extra conventions (a params attribute even
+   when the message has none, an unvalidated jsonrpc default) characterised by CatSpec for C09 — so the metamodel-level theorem is
+   instantiated for structures; envelopes are covered by [covered_parse_roundtrip] at the Python-validity level) *)
+Example mm_structures_nonvacuous :
+  Nat.leb 300 (length (filter (fun s => mem (s_name s) (fst cov)) (structures mm))) = true.
+Proof. vm_compute. reflexivity. Qed.
+Example mm_example_value : cvalid mm (TRef "Position") (JObj [("line", JInt 1); ("character", JInt 2)]).
+Proof.
+  eapply c_obj; [vm_compute; reflexivity | discriminate | repeat constructor; cbn; intuition discriminate | repeat constructor; cbn; intuition discriminate | |].
+  - intros k v [E|[E|[]]]; inversion E; subst; clear E.
+    + eexists. split; [left; reflexivity|]. split; [reflexivity|]. constructor. reflexivity.
+    + eexists. split; [right; left; reflexivity|]. split; [reflexivity|]. constructor. reflexivity.
+  - intros p [<-|[<-|[]]] _; cbn; auto.
+Qed.
+
 (* non-vacuity: the covered part is most of the package, and a concrete covered type with a concrete valid value *)
 Example cover_nonempty : Nat.leb 400 (length (fst cov)) = true /\ okty Sg (fst cov) (snd cov) (PyCls "InitializeParams") = true.
 Proof. split; vm_compute; reflexivity. Qed.
@@ -47,3 +83,5 @@ Print Assumptions cover_table_ok.
 Print Assumptions cover_hooks_ok.
 Print Assumptions covered_parse_roundtrip.
 Print Assumptions cover_not_shrunk.
+Print Assumptions mm_covered_roundtrip.
+Print Assumptions mm_covered_roundtrip_structures.
